@@ -174,6 +174,35 @@ var c11Families = []c11Family{
 		state0: func(par int) int64 { return 0 },
 	},
 	{
+		// iterates over literals: the iteration position lives in the
+		// (constant-pool) object, so sharing such objects between runs or
+		// between evaluators corrupts the loop
+		name: "foreach-over-literals",
+		script: func(tag string, par int) string {
+			return fmt.Sprintf("c = 0; foreach ch in \"abcdefgh\" { if (ch == \"c\" || ch == \"g\") { c = c + 1; } } foreach i, ch in \"xyz\" { c = c + i; } return c == 5 && A > %d;", par%3)
+		},
+		init: func(e *evalfilter.Eval, par int) {},
+		step: func(s int64, o *Obj, par int) (int64, bool, []int64) {
+			return s, o.A > par%3, nil
+		},
+		state0: func(par int) int64 { return 0 },
+	},
+	{
+		name: "foreach-over-field-and-range",
+		script: func(tag string, par int) string {
+			return fmt.Sprintf("t = 0; foreach x in Items { foreach y in 1..3 { t = t + x * y; } } foreach k, v in {\"a\": 1, \"b\": 2} { t = t + v; } return t > %d;", 3+par%9)
+		},
+		init: func(e *evalfilter.Eval, par int) {},
+		step: func(s int64, o *Obj, par int) (int64, bool, []int64) {
+			var t int64
+			for _, x := range o.Items {
+				t += int64(x) * 6
+			}
+			return s, t+3 > int64(3+par%9), nil
+		},
+		state0: func(par int) int64 { return 0 },
+	},
+	{
 		name: "fails-on-some-objects",
 		script: func(tag string, par int) string {
 			return fmt.Sprintf("k = k + 1; emit(k); q = 12 / A; return q > %d;", par%4)
@@ -296,8 +325,16 @@ func (p *c11) Run(c *verifsim.Chooser, st *Stats, render bool) *Outcome {
 	nEvals := 1 + c.Intn(2)
 	nTasks := 2 + c.Intn(3)
 	var evals []*c11Eval
+	// half of the runs use one script text for every evaluator: state that
+	// leaks between evaluators through something keyed by the text (interned
+	// constants, caches) needs the same literals on both sides
+	sameText := c.Intn(2) == 1
+	famAll, parAll := c.Intn(len(c11Families)), c.Intn(12)
 	mk := func(shared bool) *c11Eval {
 		ev := &c11Eval{fam: &c11Families[c.Intn(len(c11Families))], par: c.Intn(12), shared: shared}
+		if sameText {
+			ev.fam, ev.par = &c11Families[famAll], parAll
+		}
 		if ev.fam.regexp && c.Intn(4) == 1 {
 			// a pattern text nobody has compiled yet in this process: both
 			// tasks miss the package-level regexp cache
@@ -435,9 +472,12 @@ func (p *c11) Run(c *verifsim.Chooser, st *Stats, render bool) *Outcome {
 	p.checkRaces(o, st)
 
 	// (c) mutual exclusion monitor
-	for i, ev := range evals {
+	// (c) is a reach probe, not an oracle: an implementation may
+	// legitimately run read-only scripts of one evaluator in parallel; what it
+	// may not do is race or return a verdict no sequential order explains
+	for _, ev := range evals {
 		if ev.ctx.Overlap {
-			o.violate("C11/overlapping-runs", ev.fam.name, "two tasks executed instructions of evaluator %d in an interleaved fashion (runs of one evaluator are not mutually exclusive)", i)
+			st.probe("instructions-of-two-runs-on-one-evaluator-interleaved")
 		}
 	}
 
